@@ -785,6 +785,15 @@ func (fr *Frame) unop(x *ssa.UnOp) {
 			fr.defineFresh(x)
 			return
 		}
+		if fv, ok := x.X.(*ssa.FreeVar); ok {
+			if a := fr.capturedAlloc(fv); a != nil && immutableCapture(a) && isAncestorFn(a.Parent(), fr.topFrame().fn) {
+				fr.vals[x] = fr.capConst(a)
+				if cl := fr.freeVarClosure(fv); cl != nil {
+					fr.closures[x] = cl
+				}
+				return
+			}
+		}
 		fr.checkNonNil(x.X, x.Pos())
 		l := fr.locOf(x.X)
 		t := fr.load(l)
@@ -860,12 +869,22 @@ func (fr *Frame) freeVarClosure(fv *ssa.FreeVar) *closureVal {
 	if p == nil {
 		return nil
 	}
+	if a := fr.capturedAlloc(fv); a != nil {
+		pf := &Frame{fn: a.Parent()}
+		if cl := pf.cellClosure(a); cl != nil {
+			cl.parent = nil
+			cl.sibling = fr.topFrame() == fr
+			return cl
+		}
+		return nil
+	}
 	for _, b := range p.Blocks {
 		for _, in := range b.Instrs {
 			if a, ok := in.(*ssa.Alloc); ok && a.Comment == fv.Name() && types.Identical(a.Type(), fv.Type()) {
 				pf := &Frame{fn: p}
 				if cl := pf.cellClosure(a); cl != nil {
 					cl.parent = nil
+					cl.sibling = fr.topFrame() == fr
 					return cl
 				}
 			}
